@@ -144,14 +144,17 @@ def _factor_out_pi(num_list: List[Union[Number, str]], denominator: int = 12) ->
             continue
 
         if np.isclose(p % factor, [0, factor]).any() and p != 0:
-            gcd = np.gcd(int(p / factor), denominator)
+            # p is (within rounding) this multiple of the factor; truncating the quotient
+            # instead would give the previous multiple for values just below one
+            multiple = int(np.round(p / factor))
+            gcd = np.gcd(multiple, denominator)
             if gcd == denominator:
-                if int(p / np.pi) == 1:
+                if multiple // denominator == 1:
                     a.append("np.pi")
                 else:
-                    a.append(f"{int(p / np.pi)}*np.pi")
+                    a.append(f"{multiple // denominator}*np.pi")
             else:
-                coeff = int(p / factor / gcd)
+                coeff = multiple // gcd
                 if coeff == 1:
                     a.append(f"np.pi/{int(denominator / gcd)}")
                 else:
